@@ -141,23 +141,23 @@ theorem tie_impl_memoChecks : Impl.memoChecks = true ∧ Generated.stmts_apkCach
     some "if result.checksum != pkg.ChecksumString() → return expandPackage(ctx, a, pkg)" := ⟨rfl, rfl⟩
 
 /-- the loop of `lazilyInstallAPKFiles` = `Authentic.install`: EVERY entry of the tar index (hidden leading ones
-included) is entered into `seen` and a repeated name is an error, before the leading hidden entries are skipped and
-the others handed to `WriteHeader` in order -/
+included) that is not a directory is entered into `seen` and a repeated name is an error, before the leading hidden
+entries are skipped and the others handed to `WriteHeader` in order -/
 theorem tie_lazyInstallLoop : Generated.stmts_lazyInstallLoop =
     ["for _, file := range entries",
      "if file.Header.Name == \"\" → return-error",
-     "if _, ok := seen[file.Header.Name]; ok → return-error",
-     "seen[file.Header.Name] = struct{}{}",
+     "if file.Header.Typeflag != tar.TypeDir { if _, ok := seen[file.Header.Name]; ok → return-error; seen[file.Header.Name] = struct{}{} }",
      "if !startedDataSection && file.Header.Name[0] == '.' && !strings.Contains(file.Header.Name, \"/\") → continue",
      "startedDataSection = true",
      "installed, err := wh.WriteHeader(file.Header, tf, pkg)",
      "if err != nil → return-error",
-     "if installed && file.Header.Typeflag == tar.TypeReg → …",
+     "if installed && file.Header.Typeflag == tar.TypeReg { a.installedFiles[file.Header.Name] = pkg }",
      "files = append(files, file.Header)"] := rfl
 
 /-- the model's switch for the duplicate-name check follows the code -/
 theorem tie_impl_rejectsDup : Impl.rejectsDup = true ∧ Generated.stmts_lazyInstallLoop[2]? =
-    some "if _, ok := seen[file.Header.Name]; ok → return-error" := ⟨rfl, rfl⟩
+    some "if file.Header.Typeflag != tar.TypeDir { if _, ok := seen[file.Header.Name]; ok → return-error; seen[file.Header.Name] = struct{}{} }" :=
+  ⟨rfl, rfl⟩
 
 /-- the lazy tar FS = `Authentic.tarLookup` / `tarOpen`: the index is assigned per entry in archive order (the last
 entry of a name wins, whatever its type), `open` follows symlink and hard link entries inside the tar and fails
@@ -713,17 +713,20 @@ theorem expandVia_spec (L : Lib) (hx : HexCanonical L) (uc : Bool) (s : State) (
 
 /-- T `installed_bytes_verified` (repaired installer): after `lazilyInstallAPKFiles` of a data section that passed
 `checkSums`, every node that holds file content reads — by name, through the lazy tar FS — exactly the body of the
-entry it was created from, and that body matches the per-file record the node carries.  For ALL data sections. -/
+entry it was created from (no later entry of the data section has its name: a second file / link of that name is
+refused up front, a directory of that name fails in `WriteHeader`), and that body matches the per-file record the
+node carries.  For ALL data sections. -/
 theorem installed_bytes_verified (L : Lib) (es : List Entry) (ns : List Node) (hc : checkSums L es = true)
     (h : install true es = some ns) :
     ∀ nd ∈ ns, nd.isLink = false → served es nd = some nd.own ∧ L.sha1 nd.own = nd.sum := by
-  obtain ⟨hok, _, hnd⟩ := install_spec true es ns h
+  obtain ⟨_, hok⟩ := install_spec es ns h
   intro nd hmem hl
-  obtain ⟨e, he, hk, hname, hbody, hrec⟩ := hok nd hmem hl
+  obtain ⟨pre, e, post, hes, hk, hname, hbody, hrec, hpost, _⟩ := hok nd hmem hl
+  have he : e ∈ es := by rw [hes]; simp
   constructor
   · unfold served tarFuel
-    rw [← hname, ← hbody]
-    exact tarOpen_of_nodup es e (hnd rfl) he hk 64
+    rw [← hname, ← hbody, hes]
+    exact tarOpen_last pre post e (by rw [hname]; exact hpost) hk 64
   · rw [← hbody]
     exact filesChecked_of_checkSums L es hc e he hk nd.sum hrec
 
@@ -794,7 +797,7 @@ theorem runPkg_spec (L : Lib) (hx : HexCanonical L) (kind : OpKind) (uc : Bool) 
       · exact ⟨h1, by intro h; cases h⟩
       · next ns hi =>
         have hins := installPkg_install true e.files ns hi
-        have hrec := installed_files_recorded L e.files hcs (install_spec true e.files ns hins).2.1
+        have hrec := installed_files_recorded L e.files hcs (install_writable true e.files ns hins)
         split
         · -- the same data section again: nothing new is laid out
           exact ⟨h1, fun _ => ⟨e, rfl, hauth, fun _ => ⟨hrec, by intro nd hnd; cases hnd⟩⟩⟩
